@@ -75,9 +75,9 @@ class C11(Prop):
     lean_targets = ['BtcVerif.Props.C11', 'BtcVerif.Props.C11Native']
     table_groups = ['Bech32']
     theorems = ['BtcVerif.C11.' + t for t in (
-        'polymod_eq_spec', 'polymod_affine', 'checksum_verifies', 'convertbits_padding_rule',
+        'polymod_eq_spec', 'polymod_is_bch', 'verify_iff_bch', 'polymod_affine', 'checksum_verifies', 'convertbits_padding_rule',
         'convertbits_roundtrip', 'decode_total', 'decode_returns', 'decode_accepts_iff', 'mixed_case_rejected',
-        'encode_decode_all', 'encode_decode', 'encode_total', 'cbech32_new_iff', 'cbech32_new_rejects',
+        'uppercase_accepted', 'encode_decode_all', 'encode_decode', 'encode_total', 'cbech32_new_iff', 'cbech32_new_rejects',
         'cbech32_roundtrip', 'detects_le2', 'detects_substitutions_le2',
         'check3_true', 'check4_true', 'detects_le4', 'detects_substitutions_le4')]
     native_theorems = ['BtcVerif.C11.' + t for t in (
